@@ -1225,6 +1225,12 @@ func scnCli(o *Out, r *Rng, thorough bool) {
 		{"E", "W", "U", "F"},
 		{"E", "W", "U", "F", enc("C", "")},
 		{"E", "W", "U", "F", enc("C", "rc:1"), enc("C", "wc:1:maybe")},
+		{"E", "W", "U", "F", enc("C", "sid:256"), enc("C", "rc:1")},
+		{"E", "W", "U", "F", enc("C", "rc:1"), enc("C", "suid:300"), enc("C", "rc:2")},
+		{"E", "W", "U", "F", enc("C", "setUnitId:0x100"), enc("C", "rh:uint16:1")},
+		{"E", "W", "U", "F", enc("C", "sid:65535"), enc("C", "rc:1")},
+		{"E", "W", "U", "F", enc("C", "sid:65536"), enc("C", "rc:1")},
+		{"E", "W", "U", "F", enc("C", "sid:255"), enc("C", "rc:1"), enc("C", "sid:0"), enc("C", "rc:2")},
 		{"E", "W", "U", "F", enc("C", "wr:string:10:hello"), enc("C", "rh:bytes:10+4"), enc("C", "wr:string:20:"), enc("C", "wr:bytes:20:")},
 	}
 	for _, f := range fixed {
